@@ -574,3 +574,19 @@ def _(input_variables_map: VMap, join_variables_map: VMap, variable_pairs: List[
                                            contents(result[0])[i] == js_jv_lhs_text(input_variables_map, jv_c(contents(variable_pairs)[i][0], contents(string_literals)), jv_c(contents(variable_pairs)[i][1], contents(string_literals))))), 'a_side_expression_of_pair_i')
     raises('js_rbql.RbqlParsingError', exists(Int, lambda i: 0 <= i and i < len(variable_pairs)
                                               and not js_jv_pair_ok(input_variables_map, join_variables_map, jv_c(contents(variable_pairs)[i][0], contents(string_literals)), jv_c(contents(variable_pairs)[i][1], contents(string_literals)))), 'unknown_or_ambiguous_key')
+
+
+@pred
+def js_common_init(q, p):
+    # generate_common_init_code of rbql.js: the record object, and NR under its attribute / prefixed spellings when the text mentions them
+    return (([p + ' = new Object();'] + ([p + '.NR = ' + ('NR' if p == 'a' else 'bNR') + ';'] if q.find(p + '.NR') != -1 else []))
+            + (['aNR = NR;'] if (p == 'a' and q.find('aNR') != -1) else []))
+
+
+@contract('js_rbql.generate_common_init_code', name='C19.js.init.common', props=['C19'])
+def _(query_text: Str, variable_prefix: Str) -> List[Str]:
+    # as C09.init.common (contracts/engine_parse.py), in JavaScript syntax
+    requires(variable_prefix == 'a' or variable_prefix == 'b', 'prefix_is_a_or_b')
+    local_types(result=List[Str])
+    ensures(is_fresh(result) and contents(result) == js_common_init(query_text, variable_prefix), 'record_object_and_NR_spellings')
+    raises('AssertionError', False, 'prefix_is_a_or_b')
